@@ -76,7 +76,7 @@ def confirm(pid, x):
     return 0
 
 
-DETECT_REPO = os.environ.get("SEEDED_REPO", "/tmp/wt/detect")
+DETECT_REPO = os.environ.get("DETECT_REPO", "/tmp/wt/detect")  # several regressions can run side by side, each on its own worktree
 
 
 def _detect_repo():
